@@ -130,3 +130,11 @@ theorem getNosec_unique {nm : NosecMap} {r : List Nat} {l : Nat} {t : List Str}
     rw [ht] at ht'; exact ht'.symm ▸ rfl
 
 end Bandit
+
+namespace Bandit
+theorem resolveLoc_some {raw : Raw} {ctx : Ctx} {l c : Nat} (h : resolveLoc raw ctx = some (l, c)) :
+    raw.lineno = some l ∨ (raw.lineno = none ∧ ctx.lineno = some l) := by
+  unfold resolveLoc at h
+  cases h1 : raw.lineno <;> cases h2 : ctx.lineno <;> cases h3 : raw.col <;> cases h4 : ctx.col <;>
+    simp_all [HOrElse.hOrElse, OrElse.orElse, Option.orElse]
+end Bandit
